@@ -1035,20 +1035,31 @@ def source_code_flags(repo):
     f = _find_def(ast.parse(open(os.path.join(repo, "commonroad/prediction/prediction.py")).read()),
                   "TrajectoryPrediction", "_create_occupancy_set")
     if f is not None:
-        for node in ast.walk(f):
-            if not isinstance(node, ast.If):
-                continue
-            for k, st in enumerate(node.body):
-                tg = st.targets[0] if isinstance(st, ast.Assign) and len(st.targets) == 1 else None
-                if isinstance(tg, ast.Attribute) and tg.attr == "orientation" and isinstance(tg.value, ast.Name):
-                    var = tg.value.id
-                    rebound = any(isinstance(b, ast.Assign) and len(b.targets) == 1
-                                  and isinstance(b.targets[0], ast.Name) and b.targets[0].id == var
-                                  and isinstance(b.value, ast.Call) and isinstance(b.value.func, ast.Attribute)
-                                  and b.value.func.attr in ("copy", "deepcopy")
-                                  and isinstance(b.value.func.value, ast.Name) and b.value.func.value.id == "copy"
-                                  for b in node.body[:k])
-                    occ = rebound if occ is None else (occ and rebound)
+        # every assignment `<name>.orientation = ...` in the class (the method itself or a helper it was moved to) must
+        # be preceded, in the same statement list, by `<name> = copy.copy(...)` / `copy.deepcopy(...)`
+        cls = next((n for n in ast.walk(ast.parse(open(os.path.join(repo, "commonroad/prediction/prediction.py")).read()))
+                    if isinstance(n, ast.ClassDef) and n.name == "TrajectoryPrediction"), None)
+
+        def is_copy_call(v):
+            if not isinstance(v, ast.Call):
+                return False
+            fn = v.func
+            return (isinstance(fn, ast.Attribute) and fn.attr in ("copy", "deepcopy") and isinstance(fn.value, ast.Name)
+                    and fn.value.id == "copy") or (isinstance(fn, ast.Name) and fn.id in ("copy", "deepcopy"))
+        for node in ast.walk(cls) if cls is not None else []:
+            for field in ("body", "orelse", "finalbody"):
+                block = getattr(node, field, None)
+                if not isinstance(block, list) or not all(isinstance(b, ast.stmt) for b in block):
+                    continue
+                for k, st in enumerate(block):
+                    tg = st.targets[0] if isinstance(st, ast.Assign) and len(st.targets) == 1 else None
+                    if isinstance(tg, ast.Attribute) and tg.attr == "orientation" and isinstance(tg.value, ast.Name) \
+                            and tg.value.id != "self":
+                        var = tg.value.id
+                        rebound = any(isinstance(b, ast.Assign) and len(b.targets) == 1
+                                      and isinstance(b.targets[0], ast.Name) and b.targets[0].id == var
+                                      and is_copy_call(b.value) for b in block[:k])
+                        occ = rebound if occ is None else (occ and rebound)
     f = _find_def(ast.parse(open(os.path.join(repo, "commonroad/common/writer/file_writer_protobuf.py")).read()),
                   "PlanningProblemMessage", "create_message")
     if f is not None:
